@@ -166,6 +166,8 @@ pub struct Interp<'a> {
     blocks: BTreeMap<String, Vec<(String, Vec<Stmt>)>>,
     /// (template, block) pairs declared `required`
     required: std::collections::BTreeSet<(String, String)>,
+    /// every macro declared during the render (each holds itself in its closure)
+    all_macros: Vec<Rc<MacroDef>>,
     /// (block name, level) of the block being rendered
     current_block: Vec<(String, usize)>,
     depth: usize,
@@ -174,6 +176,15 @@ pub struct Interp<'a> {
 }
 
 const MAX_DEPTH: usize = 120;
+
+impl Drop for Interp<'_> {
+    fn drop(&mut self) {
+        // cut the macro <-> closure reference cycles, otherwise every program with a macro leaks
+        for m in self.all_macros.drain(..) {
+            m.closure.borrow_mut().clear();
+        }
+    }
+}
 
 impl<'a> Interp<'a> {
     pub fn new(templates: &'a BTreeMap<String, Vec<Stmt>>, ctx: BTreeMap<String, V>) -> Interp<'a> {
@@ -184,6 +195,7 @@ impl<'a> Interp<'a> {
             out: vec![String::new()],
             blocks: BTreeMap::new(),
             required: Default::default(),
+            all_macros: vec![],
             current_block: vec![],
             depth: 0,
             include_stack: vec![],
@@ -526,6 +538,9 @@ impl<'a> Interp<'a> {
                     template: tname.to_string(),
                 });
                 def.closure.borrow_mut().insert(name.clone(), V::Macro(def.clone()));
+                // the macro is in its own closure: remembered so that the cycle can be cut when
+                // the interpreter goes away
+                self.all_macros.push(def.clone());
                 self.assign(name, V::Macro(def));
             }
             Stmt::CallBlock { params, call, body } => {
